@@ -79,8 +79,9 @@ package httpcache
 //@   ensures result0 != nil                                                         # name: non-nil
 
 //@ func (*transport).handleCacheHit
-//@   property C01 C02 C18
+//@   property C01 C02 C18 C06
 //@   requires wired(r) && req != nil && req.URL != nil && stored != nil && stored.Data != nil && stored.Data.Header != nil
+//@   requires req.Method == "GET" && hget(req.Header, "Range") == ""                       # name: plain-get   props: C06
 //@   let tq = old(ccText(req.Header))
 //@   let ts = old(ccText(stored.Data.Header))
 //@   let hq = dirsHas(tq)
@@ -104,8 +105,9 @@ package httpcache
 //@ spec func reqOIC(req *http.Request) bool = dirsHas(ccText(req.Header))["only-if-cached"]
 
 //@ func (*transport).handleCacheMiss
-//@   property C18 C10
+//@   property C18 C10 C06
 //@   requires wired(r) && req != nil
+//@   requires req.Method == "GET" && hget(req.Header, "Range") == ""                       # name: plain-get   props: C06
 //@   assigns *
 //@   ensures (result0 != nil) != (result1 != nil)                                          # name: result-shape   props: C10
 //@   ensures old(reqOIC(req)) ==> upstreamCalls == old(upstreamCalls) && result0 != nil && result0.StatusCode == 504   # name: only-if-cached-504   props: C18
@@ -122,7 +124,7 @@ package httpcache
 //@   ensures result1 != nil ==> lastUpstreamFailed                                         # name: error-only-from-origin   props: C10
 
 //@ func (*transport).RoundTrip
-//@   property C18 C10
+//@   property C18 C10 C06 C03
 //@   requires wired(r) && req != nil && req.URL != nil
 //@   assigns *
 //@   ensures (result0 != nil) != (result1 != nil)                                          # name: result-shape   props: C10
